@@ -534,6 +534,12 @@ type IntrinsicFn struct {
 
 func (e *Engine) callSSA(caller *frame, fn *ssa.Function, args []Value, env []Value) Value {
 	name := fn.String()
+	if len(e.cfg.Stubs) > 0 {
+		if target, ok := e.cfg.Stubs[name]; ok && (caller == nil || caller.fn != target) {
+			e.noteStub("harness stub for " + name)
+			return e.callSSA(caller, target, args, nil)
+		}
+	}
 	if in := e.findIntrinsic(fn, name); in != nil {
 		e.noteStub(name)
 		return in(e, caller, fn, args)
